@@ -9,7 +9,10 @@ import (
 	"regexp"
 	"strconv"
 	"strings"
+	"sync"
 	"time"
+
+	"golang.org/x/tools/go/ssa/ssautil"
 )
 
 type stubFn func(m *Machine, args []Val) Val
@@ -172,7 +175,11 @@ func init() {
 			if !ok {
 				m.incon("Override: not a function")
 			}
-			m.overrides[a[0].(Str).C] = f
+			name := a[0].(Str).C
+			if !m.functionExists(name) {
+				m.incon("harness out of date: override target " + name + " does not exist in the current tree")
+			}
+			m.overrides[name] = f
 			return nil
 		},
 		vrt + "ClearOverride": func(m *Machine, a []Val) Val { delete(m.overrides, a[0].(Str).C); return nil },
@@ -952,3 +959,21 @@ func (m *Machine) released(c *Cell, ls *lockState, write bool) {
 }
 
 var _ = types.Typ
+
+var (
+	fnIndexOnce sync.Once
+	fnIndex     map[string]bool
+)
+
+func (m *Machine) functionExists(name string) bool {
+	fnIndexOnce.Do(func() {
+		fnIndex = map[string]bool{}
+		for f := range ssautil.AllFunctions(m.prog) {
+			fnIndex[f.String()] = true
+			if o := f.Origin(); o != nil {
+				fnIndex[o.String()] = true
+			}
+		}
+	})
+	return fnIndex[name]
+}
